@@ -134,12 +134,33 @@ def _extract_g(outdir, tag, features):
     raise MachineryError('G-mode(%s): driver produced no fact file' % tag)
 
 
-def _extract_m(outdir, release=False):
-    """release=True: the same walk with debug assertions and overflow checks off (what `cargo build --release` links)"""
-    target = os.path.join(WORK, 'tm-rel' if release else 'tm')
-    odir = os.path.join(outdir, 'rel') if release else outdir
+MIN_FEATURES = 'default-features = false, features = ["ristretto255-voprf", "curve25519", "argon2"]'
+FULL_FEATURES = 'features = ["curve25519", "std", "argon2", "serde"]'
+
+
+def _min_crate_dir():
+    """private copy of the harness whose dependency on the library switches the `serde` and `std` features off (what a
+    `default-features = false` user links); everything else identical"""
+    dst = os.path.join(WORK, 'crates', 'suites-min')
+    if os.path.isdir(dst):
+        shutil.rmtree(dst)
+    shutil.copytree(HARNESS, dst, ignore=shutil.ignore_patterns('target', 'Cargo.lock'))
+    p = os.path.join(dst, 'Cargo.toml')
+    txt = open(p).read()
+    if FULL_FEATURES not in txt:
+        raise MachineryError('harness manifest: feature list of the opaque-ke dependency not found')
+    txt = txt.replace(FULL_FEATURES, MIN_FEATURES).replace('path = "/repo"', 'path = "%s"' % REPO)
+    open(p, 'w').write(txt)
+    return dst
+
+
+def _extract_m(outdir, release=False, minimal=False):
+    """release=True: the same walk with debug assertions and overflow checks off (what `cargo build --release` links);
+    minimal=True: the same walk with the library's `serde` and `std` features off"""
+    target = os.path.join(WORK, 'tm-min' if minimal else ('tm-rel' if release else 'tm'))
+    odir = os.path.join(outdir, 'min') if minimal else (os.path.join(outdir, 'rel') if release else outdir)
     os.makedirs(odir, exist_ok=True)
-    hdir = _crate_dir(HARNESS, 'suites')
+    hdir = _min_crate_dir() if minimal else _crate_dir(HARNESS, 'suites')
     shutil.copyfile(os.path.join(REPO, 'Cargo.lock'), os.path.join(hdir, 'Cargo.lock'))
     for attempt in (0, 1):
         _rm_fingerprints(target, 'suites-')
@@ -147,7 +168,7 @@ def _extract_m(outdir, release=False):
         env = _env(extra)
         if release:
             env['RUSTFLAGS'] += ' -Cdebug-assertions=off -Coverflow-checks=off'
-        _run_cargo(['cargo', '+nightly', 'check', '--lib', '--offline'], hdir, env, 'M-mode' + ('(release cfg)' if release else ''))
+        _run_cargo(['cargo', '+nightly', 'check', '--lib', '--offline'], hdir, env, 'M-mode' + ('(release cfg)' if release else '') + ('(min features)' if minimal else ''))
         if os.path.exists(os.path.join(odir, 'm-DONE')):
             return
         shutil.rmtree(target, ignore_errors=True)
@@ -201,6 +222,8 @@ def ensure(thorough=False):
             _extract_m(outdir); did.append('M')
         if not os.path.exists(os.path.join(outdir, 'rel', 'm-DONE')):
             _extract_m(outdir, release=True); did.append('M(release cfg)')
+        if not os.path.exists(os.path.join(outdir, 'min', 'm-DONE')):
+            _extract_m(outdir, minimal=True); did.append('M(min features)')
         if os.path.isdir(FIXTURES) and not (os.path.exists(os.path.join(outdir, 'fx', 'm-DONE')) and os.path.exists(os.path.join(outdir, 'fx', 'g-fx.json'))):
             _extract_f(outdir); did.append('fixtures')
         if thorough:
